@@ -118,6 +118,48 @@ def hint_module(vhints, bhints):
     return ModuleOp([holder])
 
 
+def literal_modules(rng, n_ops: int = 12):
+    """Modules whose ops carry attribute literals at the edges of their printed encodings: floats that need many digits / the
+    hexadecimal fallback / inf / nan / -0.0 for every float type, integers at the type bounds, dense elements, strings with escapes."""
+    from xdsl.dialects import test
+    from xdsl.dialects.builtin import (ArrayAttr, BFloat16Type, DenseIntOrFPElementsAttr, DictionaryAttr, Float16Type, Float32Type, Float64Type, FloatAttr,
+                                       IndexType, IntegerAttr, IntegerType, ModuleOp, StringAttr, SymbolRefAttr, TensorType, UnitAttr)
+
+    floats = [0.0, -0.0, 1.0, -1.5, 0.1, 1 / 3, 1234567.0, 123456789.0, 16777217.0, 9007199254740992.0, 9007199254740993.0, 1e22, 1e-7, 65504.0,
+              3.4028234663852886e38, 1.7976931348623157e308, 5e-324, float("inf"), float("-inf"), float("nan"), 299792512.0, -2147483648.0]
+    attrs = []
+    for ty in (Float16Type(), BFloat16Type(), Float32Type(), Float64Type()):
+        for v in floats:
+            try:
+                attrs.append(FloatAttr(v, ty))
+            except Exception:  # noqa: BLE001  (value not representable in the type)
+                pass
+        for vs in ([1234567.0, 0.5], [float("nan"), 1.0], [123456789.0, 123456789.0, 123456789.0], [2.0 ** 53]):
+            try:
+                attrs.append(DenseIntOrFPElementsAttr.from_list(TensorType(ty, [len(vs)]), vs))
+            except Exception:  # noqa: BLE001
+                pass
+    for w in (1, 8, 16, 32, 64, 128):
+        t = IntegerType(w)
+        for v in (0, 1, -1, (1 << (w - 1)) - 1, -(1 << (w - 1))):
+            try:
+                attrs.append(IntegerAttr(v, t))
+            except Exception:  # noqa: BLE001
+                pass
+    attrs += [IntegerAttr(v, IndexType()) for v in (0, -1, 2 ** 63 - 1, -(2 ** 63))]
+    for w, vs in ((8, [0, -1, 127, -128]), (32, [2147483647, -2147483648]), (64, [2 ** 63 - 1, -(2 ** 63), 0])):
+        attrs.append(DenseIntOrFPElementsAttr.from_list(TensorType(IntegerType(w), [len(vs)]), vs))
+    attrs += [StringAttr(x) for x in ("", "a", "a\"b", "back\\slash", "line\nbreak\ttab", "é∑ unicode", "nul\x00byte", "%not a value", "^bb0", "#attr<x>")]
+    attrs += [UnitAttr(), ArrayAttr([]), ArrayAttr([UnitAttr(), StringAttr("x")]), DictionaryAttr({"k": IntegerAttr(1, IntegerType(32)), "k.2": StringAttr("v")}),
+              SymbolRefAttr("a", ["b", "c"])]
+    mods = []
+    rng.shuffle(attrs)
+    for k in range(0, len(attrs), n_ops):
+        ops = [test.TestOp.create(attributes={"v": a, "second": attrs[(k + j * 7 + 3) % len(attrs)]}) for j, a in enumerate(attrs[k:k + n_ops])]
+        mods.append(ModuleOp(ops))
+    return mods, len(attrs)
+
+
 def run(ctx: Ctx):
     ctx.level = "exploration"
     q = ctx.quick
@@ -157,6 +199,12 @@ def run(ctx: Ctx):
                         b.name_hint = grng.choice(["bb1", "bb0", "entry", "x_1", "bb2_1"])
         roundtrip_case(ctx, ModuleOp([op]), {"source": "generated tree", "tree": k}, cases, metas)
     n_gen = len(cases) - n_alpha
+    # 3b. attribute literals at the edges of their encodings
+    lmods, n_lit = literal_modules(ctx.rng("literals"))
+    for k, lm in enumerate(lmods):
+        roundtrip_case(ctx, lm, {"source": "literal alphabet", "file": f"literals#{k}"}, cases, metas)
+    n_gen = len(cases) - n_alpha
+    ctx.coverage["attribute_literals"] = n_lit
     # 4. the corpus
     from .c01_c2s import corpus_modules
 
